@@ -15,9 +15,20 @@
     `isWrite H d as as'`   as' is the result of a successful Set or Add of d on as, or of Del
     `encodeRefused …`      explicit refusal predicate of the encoding half of a setter
   The full-strength versions without each exclusion are stated as `…_full` and refuted.
+
+  Further vocabulary:
+    `Imp.hSetImp` / `Imp.hAddImp` / `Imp.hDelImp`   state-passing mirrors of the setters in the Go statement
+                             order (RV/Model/HelperImp.lean): result AND attribute list afterwards,
+                             also on error — §6 "refusal leaves the packet unchanged", §11 negative control
+    `AcceptsAs` / `Refuses`  outcome of Set and Add for an address value — §6 address-family table, §12
+    `hGet`, `hGetString`, `hLookupString`, `hGetStrings`, `lookupResults`   X_Get & the string flavours — §2b, §14
+    `Gen.valueConsts`, `Gen.stringsMap`, `Gen.valueString`, `Gen.lastWins`  value constants / `String()` — §13
 -/
 import RV.Model.Helper
 import RV.Proofs.Helper
+import RV.Proofs.HelperImp
+import RV.Proofs.HelperGet
+import RV.Proofs.ValueConsts
 import RV.Props.C01
 import RV.Props.C10
 namespace RV.C12
@@ -65,6 +76,71 @@ theorem set_stores_one (d : Desc) (hwf : d.wf) (hk : d.kind ≠ .concat)
     (h : hSet H d as tag v secret auth salt = .ok as') :
     ∃ a, encodeValue H d tag v secret auth salt = .ok a ∧ rawValues d as' = [a] :=
   rawValues_hSet H d hwf hk as as' tag v secret auth salt h
+
+/-! ### 2b. X_Get, X_GetString(s), X_LookupString
+
+    The templates emit `X_Get` as `tag, value, _ = X_Lookup(p)`: `hGet` is the pair of named results
+    of `X_Lookup` at its `return` (`lookupResults`), the error dropped. -/
+
+/-- X_Get against X_Lookup, in each of the three outcomes of X_Lookup: the reported value; the zero
+    value (and tag 0) when the attribute is absent; and on a decoding error the results the failing
+    decode left — the zero value for every kind but string / octets (there: the decrypted value of
+    the wrong fixed size, or nil after a failed decryption; the stripped tag in either case) -/
+theorem get_eq_lookup (d : Desc) (as : Attrs) (secret auth : Bytes) :
+    match hLookup H d as secret auth with
+    | .val t v => hGet H d as secret auth = (t, v)
+    | .noAttr => hGet H d as secret auth = (0, GVal.zero d.kind)
+    | .err => ∃ a, (rawValues d as).head? = some a ∧
+        hGet H d as secret auth = lookupResults H d a secret auth ∧
+        (d.kind ≠ .string ∧ d.kind ≠ .octets → (hGet H d as secret auth).2 = GVal.zero d.kind) := by
+  cases h : hLookup H d as secret auth with
+  | val t v => exact hGet_of_lookup_val H d as secret auth t v h
+  | noAttr => exact hGet_of_lookup_noAttr H d as secret auth h
+  | err => exact hGet_of_lookup_err H d as secret auth h
+
+/-- after a successful X_Set(p, v), X_Get returns v with its tag — whatever the packet held -/
+theorem set_get (hH : ∀ x, (H x).length = 16) (d : Desc) (hwf : d.wf) (hk : d.kind ≠ .concat)
+    (as as' : Attrs) (tag : UInt8) (v : GVal) (secret auth salt : Bytes) (hv : valueOK d tag v)
+    (h : hSet H d as tag v secret auth salt = .ok as') :
+    hGet H d as' secret auth = (tag, canon d v) :=
+  hGet_of_lookup_val H d as' secret auth _ _ (set_lookup H hH d hwf hk as as' tag v secret auth salt hv h)
+
+/-- … and X_GetString (text attributes) returns it as a string -/
+theorem set_getString (hH : ∀ x, (H x).length = 16) (d : Desc) (hwf : d.wf)
+    (hk : d.kind = .string ∨ d.kind = .octets)
+    (as as' : Attrs) (tag : UInt8) (v : GVal) (secret auth salt : Bytes) (hv : valueOK d tag v)
+    (h : hSet H d as tag v secret auth salt = .ok as') :
+    hGetString H d as' secret auth = (tag, canon d v) ∧
+    hLookupString H d as' secret auth = .val tag (canon d v) ∧
+    hGetStrings H d as' secret auth = ([(tag, canon d v)], true) := by
+  have hc : d.kind ≠ .concat := by rcases hk with h | h <;> simp [h]
+  have hk3 : d.kind = .string ∨ d.kind = .octets ∨ d.kind = .concat := by
+    rcases hk with h | h
+    · exact Or.inl h
+    · exact Or.inr (Or.inl h)
+  rw [hGetString_eq H d hk3, hLookupString_eq H d hk3, hGetStrings_eq]
+  exact ⟨set_get H hH d hwf hc as as' tag v secret auth salt hv h,
+    set_lookup H hH d hwf hc as as' tag v secret auth salt hv h,
+    set_gets_single H hH d hwf hc as as' tag v secret auth salt hv h⟩
+
+/-- the string flavours are the byte flavours (Go's `string(b)` / `[]byte(s)` keep the bytes):
+    X_LookupString = X_Lookup, X_GetString = X_Get, X_GetStrings = X_Gets, X_SetString = X_Set,
+    X_AddString = X_Add -/
+theorem string_variants_agree (d : Desc) (hk : d.kind = .string ∨ d.kind = .octets ∨ d.kind = .concat)
+    (as : Attrs) (tag : UInt8) (s secret auth salt : Bytes) :
+    hLookupString H d as secret auth = hLookup H d as secret auth ∧
+    hGetString H d as secret auth = hGet H d as secret auth ∧
+    hGetStrings H d as secret auth = hGets H d as secret auth ∧
+    hSetString H d as tag s secret auth salt = hSet H d as tag (.bytes s) secret auth salt ∧
+    hAddString H d as tag s secret auth salt = hAdd H d as tag (.bytes s) secret auth salt :=
+  ⟨hLookupString_eq H d hk as secret auth, hGetString_eq H d hk as secret auth,
+   hGetStrings_eq H d as secret auth, rfl, rfl⟩
+
+/-- after X_Del, X_Get returns the zero value -/
+theorem del_get (d : Desc) (as : Attrs) (secret auth : Bytes) :
+    hGet H d (hDel d as) secret auth = (0, GVal.zero d.kind) :=
+  hGet_of_lookup_noAttr H d _ secret auth
+    (hLookup_of_raw_nil H d _ secret auth (rawValues_hDel d as))
 
 /-! ### 3. Add appends -/
 
@@ -163,17 +239,73 @@ theorem vendor_write_keeps_view (d : Desc) (hwf : d.wf) (h0 : d.vendorID ≠ 0) 
 
 /-! ### 6. refusals -/
 
-/-- setters return an error or a new packet, never panic; `.err` carries no packet, so a refused
-    operation leaves the caller's packet as it was -/
+/-- setters return an error or a new packet, never panic.  (The pure `.err` carries no packet; what
+    the packet holds after a refusal is stated about the imperative mirror in
+    `refusal_leaves_unchanged` / `setImp_refusal_unchanged` below.) -/
 theorem never_faults (d : Desc) (as : Attrs) (tag : UInt8) (v : GVal) (secret auth salt : Bytes) :
     hSet H d as tag v secret auth salt ≠ .fault ∧ hAdd H d as tag v secret auth salt ≠ .fault :=
   ⟨hSet_ne_fault H d as tag v secret auth salt, hAdd_ne_fault H d as tag v secret auth salt⟩
 
+/-! #### the packet after a refusal — imperative mirror (RV/Model/HelperImp.lean)
+
+    The pure `hSet` / `hAdd` return `.err` without a packet, so about them "unchanged on failure"
+    says nothing.  `Imp.hSetImp` / `Imp.hAddImp` / `Imp.hDelImp` are state-passing mirrors of the same
+    templates in the Go statement order: they return the result AND the attribute list the packet
+    holds afterwards, also on error, and a mutation executed before a failing statement stays
+    visible (see `old_vendor_set_order_changes_packet_on_refusal`). -/
+
+/-- refinement: a successful imperative Set ends in exactly the list the pure model returns -/
+theorem setImp_ok_iff (d : Desc) (as as' : Attrs) (tag : UInt8) (v : GVal) (secret auth salt : Bytes) :
+    Imp.hSetImp H d tag v secret auth salt as = (.ok (), as') ↔ hSet H d as tag v secret auth salt = .ok as' := by
+  rw [Imp.hSetImp_eq]; exact Imp.outcome_ok_iff _ _ _
+
+theorem addImp_ok_iff (d : Desc) (as as' : Attrs) (tag : UInt8) (v : GVal) (secret auth salt : Bytes) :
+    Imp.hAddImp H d tag v secret auth salt as = (.ok (), as') ↔ hAdd H d as tag v secret auth salt = .ok as' := by
+  rw [Imp.hAddImp_eq]; exact Imp.outcome_ok_iff _ _ _
+
+/-- Del never fails and ends in the pure model's list -/
+theorem delImp_eq (d : Desc) (as : Attrs) : Imp.hDelImp d as = (.ok (), hDel d as) := Imp.hDelImp_eq d as
+
+/-- refinement, outcome classes: the imperative mirror reports an error (a panic) exactly when the
+    pure model does -/
+theorem setImp_err_iff (d : Desc) (as : Attrs) (tag : UInt8) (v : GVal) (secret auth salt : Bytes) :
+    ((Imp.hSetImp H d tag v secret auth salt as).1 = .err ↔ hSet H d as tag v secret auth salt = .err) ∧
+    ((Imp.hSetImp H d tag v secret auth salt as).1 = .fault ↔ hSet H d as tag v secret auth salt = .fault) := by
+  rw [Imp.hSetImp_eq]; exact ⟨Imp.outcome_err_iff _ _, Imp.outcome_fault_iff _ _⟩
+
+theorem addImp_err_iff (d : Desc) (as : Attrs) (tag : UInt8) (v : GVal) (secret auth salt : Bytes) :
+    ((Imp.hAddImp H d tag v secret auth salt as).1 = .err ↔ hAdd H d as tag v secret auth salt = .err) ∧
+    ((Imp.hAddImp H d tag v secret auth salt as).1 = .fault ↔ hAdd H d as tag v secret auth salt = .fault) := by
+  rw [Imp.hAddImp_eq]; exact ⟨Imp.outcome_err_iff _ _, Imp.outcome_fault_iff _ _⟩
+
+/-- THE property: whenever the imperative Set / Add does not succeed, the attribute list it leaves
+    behind is the one it found — for every descriptor (well-formed or not), tag, value, secret,
+    authenticator, salt and prior packet -/
+theorem setImp_refusal_unchanged (d : Desc) (as : Attrs) (tag : UInt8) (v : GVal) (secret auth salt : Bytes)
+    (h : (Imp.hSetImp H d tag v secret auth salt as).1 ≠ .ok ()) :
+    (Imp.hSetImp H d tag v secret auth salt as).2 = as := by
+  rw [Imp.hSetImp_eq] at h ⊢; exact Imp.outcome_unchanged _ _ h
+
+theorem addImp_refusal_unchanged (d : Desc) (as : Attrs) (tag : UInt8) (v : GVal) (secret auth salt : Bytes)
+    (h : (Imp.hAddImp H d tag v secret auth salt as).1 ≠ .ok ()) :
+    (Imp.hAddImp H d tag v secret auth salt as).2 = as := by
+  rw [Imp.hAddImp_eq] at h ⊢; exact Imp.outcome_unchanged _ _ h
+
+/-- "Setters refuse … with an error and leave the packet unchanged": Set and Add end in an error or
+    in success, never in a panic (first two conjuncts, about the pure model, as before); the
+    imperative mirrors reach the same verdict; and when that verdict is an error, the packet's
+    attribute list after the call equals the list before the call -/
 theorem refusal_leaves_unchanged (d : Desc) (as : Attrs) (tag : UInt8) (v : GVal) (secret auth salt : Bytes) :
     (hSet H d as tag v secret auth salt = .err ∨ ∃ as', hSet H d as tag v secret auth salt = .ok as') ∧
-    (hAdd H d as tag v secret auth salt = .err ∨ ∃ as', hAdd H d as tag v secret auth salt = .ok as') := by
+    (hAdd H d as tag v secret auth salt = .err ∨ ∃ as', hAdd H d as tag v secret auth salt = .ok as') ∧
+    ((Imp.hSetImp H d tag v secret auth salt as = (.err, as) ∧ hSet H d as tag v secret auth salt = .err) ∨
+      ∃ as', Imp.hSetImp H d tag v secret auth salt as = (.ok (), as') ∧ hSet H d as tag v secret auth salt = .ok as') ∧
+    ((Imp.hAddImp H d tag v secret auth salt as = (.err, as) ∧ hAdd H d as tag v secret auth salt = .err) ∨
+      ∃ as', Imp.hAddImp H d tag v secret auth salt as = (.ok (), as') ∧ hAdd H d as tag v secret auth salt = .ok as') ∧
+    ((Imp.hSetImp H d tag v secret auth salt as).1 = .err → (Imp.hSetImp H d tag v secret auth salt as).2 = as) ∧
+    ((Imp.hAddImp H d tag v secret auth salt as).1 = .err → (Imp.hAddImp H d tag v secret auth salt as).2 = as) := by
   have h := never_faults H d as tag v secret auth salt
-  constructor
+  refine ⟨?_, ?_, ?_, ?_, ?_, ?_⟩
   · cases hs : hSet H d as tag v secret auth salt with
     | ok as' => exact Or.inr ⟨as', rfl⟩
     | err => exact Or.inl rfl
@@ -182,6 +314,18 @@ theorem refusal_leaves_unchanged (d : Desc) (as : Attrs) (tag : UInt8) (v : GVal
     | ok as' => exact Or.inr ⟨as', rfl⟩
     | err => exact Or.inl rfl
     | fault => exact absurd hs h.2
+  · rw [Imp.hSetImp_eq]
+    cases hs : hSet H d as tag v secret auth salt with
+    | ok as' => exact Or.inr ⟨as', rfl, rfl⟩
+    | err => exact Or.inl ⟨rfl, rfl⟩
+    | fault => exact absurd hs h.1
+  · rw [Imp.hAddImp_eq]
+    cases hs : hAdd H d as tag v secret auth salt with
+    | ok as' => exact Or.inr ⟨as', rfl, rfl⟩
+    | err => exact Or.inl ⟨rfl, rfl⟩
+    | fault => exact absurd hs h.2
+  · intro he; exact setImp_refusal_unchanged H d as tag v secret auth salt (by rw [he]; simp)
+  · intro he; exact addImp_refusal_unchanged H d as tag v secret auth salt (by rw [he]; simp)
 
 /-- the encoding half of a setter errs exactly on the explicit refusal predicate -/
 theorem encode_refused_iff (hH : ∀ x, (H x).length = 16) (d : Desc) (hwf : d.wf) (tag : UInt8)
@@ -227,6 +371,226 @@ theorem refuses_wrong_address_family (hH : ∀ x, (H x).length = 16) (d : Desc) 
     rcases hk with ⟨h, h4⟩ | ⟨h, h4⟩ <;> simp only [encodeRefused, h] <;> exact Or.inl h4
   have hc : d.kind ≠ .concat := by rcases hk with ⟨h, _⟩ | ⟨h, _⟩ <;> simp [h]
   exact (hSet_err_iff H hH d hwf as tag _ secret auth salt).2 (by rw [if_neg hc]; exact Or.inl hr)
+
+/-! #### address families: every combination of value shape × attribute kind
+
+    `net.IP` is a byte slice of length 4 (IPv4) or 16 (IPv6, or IPv4 in its v4-mapped form
+    `::ffff:a.b.c.d` — which is what `net.ParseIP("a.b.c.d")` and `net.IPv4(a,b,c,d)` return).
+    `radius.NewIPAddr` uses `To4()`, `radius.NewIPv6Addr` uses `To16()`; both CONVERT between the two
+    representations of an IPv4 address instead of refusing.  The model (`to4` / `to16` of
+    RV/Model/Codec.lean) mirrors that.  Table, proved below for X_Set and X_Add, top-level and vendor
+    attributes (`encrypt` absent, so that no key material is needed for an acceptance):
+
+      value handed to the setter         | ipaddr attribute           | ipv6addr attribute
+      -----------------------------------+----------------------------+---------------------------------
+      4 octets                           | ACCEPT, stored as given    | ACCEPT (!), stored ::ffff:a.b.c.d
+      16 octets, v4-mapped               | ACCEPT, stored last 4      | ACCEPT (!), stored as given
+      16 octets, not v4-mapped           | refuse                     | ACCEPT, stored as given
+      any other length (nil included)    | refuse                     | refuse
+
+    (!) = an IPv4 address is accepted by an IPv6 attribute although the property text says setters
+    refuse the "wrong address family"; see `ipv6_setter_accepts_ipv4_as_mapped`,
+    `ipv6_setter_accepts_v4mapped` and `wrong_family_accepted_witness`. -/
+
+/-- the 16-octet value is the v4-mapped form of an IPv4 address -/
+def isV4Mapped (ip : Bytes) : Prop := ip.length = 16 ∧ ip.take 12 = v4InV6Prefix
+
+instance (ip : Bytes) : Decidable (isV4Mapped ip) := by unfold isV4Mapped; infer_instance
+
+/-- the encoding half for the two address kinds, any `encrypt` -/
+theorem encode_ipaddr (d : Desc) (hk : d.kind = .ipaddr) (tag : UInt8) (ip secret auth salt : Bytes) :
+    encodeValue H d tag (.bytes ip) secret auth salt =
+      match to4 ip with
+      | some b => obfuscate H d b secret auth salt
+      | none => .err := by
+  unfold encodeValue; simp only [hk, newIPAddr]
+  cases to4 ip <;> rfl
+
+theorem encode_ipv6addr (d : Desc) (hk : d.kind = .ipv6addr) (tag : UInt8) (ip secret auth salt : Bytes) :
+    encodeValue H d tag (.bytes ip) secret auth salt =
+      match to16 ip with
+      | some b => obfuscate H d b secret auth salt
+      | none => .err := by
+  unfold encodeValue; simp only [hk, newIPv6Addr]
+  cases to16 ip <;> rfl
+
+/-- once the encoding half yields `a` (1..247 octets), Set stores exactly `a` and Add appends it -/
+theorem set_add_of_encode (d : Desc) (hwf : d.wf) (hk : d.kind ≠ .concat) (tag : UInt8) (v : GVal)
+    (secret auth salt a : Bytes) (he : encodeValue H d tag v secret auth salt = .ok a)
+    (hl : 1 ≤ a.length ∧ a.length ≤ 247) (as : Attrs) :
+    (∃ as', hSet H d as tag v secret auth salt = .ok as' ∧ rawValues d as' = [a]) ∧
+    (∃ as', hAdd H d as tag v secret auth salt = .ok as' ∧ rawValues d as' = rawValues d as ++ [a]) := by
+  have hs : ∃ as', hSet H d as tag v secret auth salt = .ok as' := by
+    unfold hSet; rw [if_neg hk, he]; simp only []
+    by_cases hv : d.vendorID = 0
+    · rw [if_pos hv]; exact ⟨_, rfl⟩
+    · rw [if_neg hv, setVendor_eq, if_pos hl]; exact ⟨_, rfl⟩
+  have ha : ∃ as', hAdd H d as tag v secret auth salt = .ok as' := by
+    unfold hAdd; rw [if_neg hk, he]; simp only []
+    by_cases hv : d.vendorID = 0
+    · rw [if_pos hv]; exact ⟨_, rfl⟩
+    · rw [if_neg hv, addVendor_eq, if_pos hl]; exact ⟨_, rfl⟩
+  obtain ⟨as1, h1⟩ := hs
+  obtain ⟨as2, h2⟩ := ha
+  obtain ⟨a1, e1, r1⟩ := rawValues_hSet H d hwf hk as as1 tag v secret auth salt h1
+  obtain ⟨a2, e2, r2⟩ := rawValues_hAdd H d hwf as as2 tag v secret auth salt h2
+  rw [he] at e1 e2; cases e1; cases e2
+  exact ⟨⟨as1, h1, r1⟩, ⟨as2, h2, r2⟩⟩
+
+/-- what "accepted, stored as `b`" means: Set succeeds and leaves exactly the stored value `b`,
+    Add succeeds and appends `b`, and Lookup after the Set returns `b` -/
+def AcceptsAs (d : Desc) (as : Attrs) (tag : UInt8) (ip secret auth salt b : Bytes) : Prop :=
+  (∃ as', hSet H d as tag (.bytes ip) secret auth salt = .ok as' ∧ rawValues d as' = [b] ∧
+    hLookup H d as' secret auth = .val 0 (.bytes b)) ∧
+  (∃ as', hAdd H d as tag (.bytes ip) secret auth salt = .ok as' ∧ rawValues d as' = rawValues d as ++ [b])
+
+/-- what "refused" means: Set and Add return an error, and (imperative mirror) the packet's
+    attribute list is unchanged -/
+def Refuses (d : Desc) (as : Attrs) (tag : UInt8) (ip secret auth salt : Bytes) : Prop :=
+  hSet H d as tag (.bytes ip) secret auth salt = .err ∧ hAdd H d as tag (.bytes ip) secret auth salt = .err ∧
+  Imp.hSetImp H d tag (.bytes ip) secret auth salt as = (.err, as) ∧
+  Imp.hAddImp H d tag (.bytes ip) secret auth salt as = (.err, as)
+
+theorem refuses_of_encode_err (d : Desc) (hk : d.kind ≠ .concat) (as : Attrs) (tag : UInt8)
+    (ip secret auth salt : Bytes) (he : encodeValue H d tag (.bytes ip) secret auth salt = .err) :
+    Refuses H d as tag ip secret auth salt := by
+  have h1 : hSet H d as tag (.bytes ip) secret auth salt = .err := by unfold hSet; rw [if_neg hk, he]
+  have h2 : hAdd H d as tag (.bytes ip) secret auth salt = .err := by unfold hAdd; rw [if_neg hk, he]
+  exact ⟨h1, h2, by rw [Imp.hSetImp_eq, h1]; rfl, by rw [Imp.hAddImp_eq, h2]; rfl⟩
+
+theorem obfuscate_enc0 (d : Desc) (he : d.encrypt = 0) (a secret auth salt : Bytes) :
+    obfuscate H d a secret auth salt = .ok a := by
+  unfold obfuscate; rw [he]; rfl
+
+theorem acceptsAs_ipaddr (d : Desc) (hwf : d.wf) (hk : d.kind = .ipaddr) (he : d.encrypt = 0)
+    (as : Attrs) (tag : UInt8) (ip secret auth salt b : Bytes) (h4 : to4 ip = some b) (hb : b.length = 4) :
+    AcceptsAs H d as tag ip secret auth salt b := by
+  have hc : d.kind ≠ .concat := by simp [hk]
+  have hen : encodeValue H d tag (.bytes ip) secret auth salt = .ok b := by
+    rw [encode_ipaddr H d hk, h4]; exact obfuscate_enc0 H d he _ _ _ _
+  obtain ⟨⟨as1, h1, r1⟩, h2⟩ := set_add_of_encode H d hwf hc tag _ secret auth salt b hen (by omega) as
+  refine ⟨⟨as1, h1, r1, ?_⟩, h2⟩
+  have hd : decodeValue H d b secret auth = .ok (0, .bytes b) := by
+    unfold decodeValue
+    simp [hk, Desc.usesSalt, he, ipAddr, hb]
+  exact hLookup_of_raw_single H d hc as1 secret auth b [] _ r1 hd
+
+theorem acceptsAs_ipv6addr (d : Desc) (hwf : d.wf) (hk : d.kind = .ipv6addr) (he : d.encrypt = 0)
+    (as : Attrs) (tag : UInt8) (ip secret auth salt b : Bytes) (h16 : to16 ip = some b) (hb : b.length = 16) :
+    AcceptsAs H d as tag ip secret auth salt b := by
+  have hc : d.kind ≠ .concat := by simp [hk]
+  have hen : encodeValue H d tag (.bytes ip) secret auth salt = .ok b := by
+    rw [encode_ipv6addr H d hk, h16]; exact obfuscate_enc0 H d he _ _ _ _
+  obtain ⟨⟨as1, h1, r1⟩, h2⟩ := set_add_of_encode H d hwf hc tag _ secret auth salt b hen (by omega) as
+  refine ⟨⟨as1, h1, r1, ?_⟩, h2⟩
+  have hd : decodeValue H d b secret auth = .ok (0, .bytes b) := by
+    unfold decodeValue
+    simp [hk, Desc.usesSalt, he, ipv6Addr, hb]
+  exact hLookup_of_raw_single H d hc as1 secret auth b [] _ r1 hd
+
+/-! ##### IPv4 attribute (`ipaddr`) -/
+
+/-- 4 octets → accepted, stored as given -/
+theorem ipv4_setter_accepts_4 (d : Desc) (hwf : d.wf) (hk : d.kind = .ipaddr) (he : d.encrypt = 0)
+    (as : Attrs) (tag : UInt8) (ip secret auth salt : Bytes) (hl : ip.length = 4) :
+    AcceptsAs H d as tag ip secret auth salt ip :=
+  acceptsAs_ipaddr H d hwf hk he as tag ip secret auth salt ip (by unfold to4; rw [if_pos hl]) hl
+
+/-- 16 octets in v4-mapped form → ACCEPTED, stored as its last 4 octets (this is how Go programs
+    normally hold an IPv4 address, so the acceptance is the useful behaviour) -/
+theorem ipv4_setter_accepts_v4mapped_as_4 (d : Desc) (hwf : d.wf) (hk : d.kind = .ipaddr) (he : d.encrypt = 0)
+    (as : Attrs) (tag : UInt8) (ip secret auth salt : Bytes) (hm : isV4Mapped ip) :
+    AcceptsAs H d as tag ip secret auth salt (ip.drop 12) :=
+  acceptsAs_ipaddr H d hwf hk he as tag ip secret auth salt (ip.drop 12)
+    (by unfold to4; rw [if_neg (by have := hm.1; omega), if_pos (show ip.length = 16 ∧ ip.take 12 = v4InV6Prefix from hm)]) (by have := hm.1; simp; omega)
+
+/-- 16 octets, not v4-mapped (a genuine IPv6 address) → refused, whatever `encrypt` is -/
+theorem ipv4_setter_refuses_ipv6 (d : Desc) (hk : d.kind = .ipaddr)
+    (as : Attrs) (tag : UInt8) (ip secret auth salt : Bytes) (hl : ip.length = 16) (hm : ¬ isV4Mapped ip) :
+    Refuses H d as tag ip secret auth salt := by
+  refine refuses_of_encode_err H d (by simp [hk]) as tag ip secret auth salt ?_
+  rw [encode_ipaddr H d hk]
+  have : to4 ip = none := by
+    unfold to4; rw [if_neg (by omega), if_neg (show ¬ (ip.length = 16 ∧ ip.take 12 = v4InV6Prefix) from hm)]
+  rw [this]
+
+/-- any other length (`nil` included) → refused -/
+theorem ipv4_setter_refuses_other_length (d : Desc) (hk : d.kind = .ipaddr)
+    (as : Attrs) (tag : UInt8) (ip secret auth salt : Bytes) (h4 : ip.length ≠ 4) (h16 : ip.length ≠ 16) :
+    Refuses H d as tag ip secret auth salt := by
+  refine refuses_of_encode_err H d (by simp [hk]) as tag ip secret auth salt ?_
+  rw [encode_ipaddr H d hk]
+  have : to4 ip = none := by
+    unfold to4; rw [if_neg h4, if_neg (fun h => h16 h.1)]
+  rw [this]
+
+/-- summary for an unencrypted IPv4 attribute: refused exactly when the value is neither 4 octets
+    nor a v4-mapped 16 octets -/
+theorem ipv4_setter_refuses_iff (d : Desc) (hwf : d.wf) (hk : d.kind = .ipaddr) (he : d.encrypt = 0)
+    (as : Attrs) (tag : UInt8) (ip secret auth salt : Bytes) :
+    hSet H d as tag (.bytes ip) secret auth salt = .err ↔ ¬ (ip.length = 4 ∨ isV4Mapped ip) := by
+  constructor
+  · intro herr hor
+    rcases hor with h | h
+    · obtain ⟨⟨as', hs, _⟩, _⟩ := ipv4_setter_accepts_4 H d hwf hk he as tag ip secret auth salt h
+      rw [hs] at herr; cases herr
+    · obtain ⟨⟨as', hs, _⟩, _⟩ := ipv4_setter_accepts_v4mapped_as_4 H d hwf hk he as tag ip secret auth salt h
+      rw [hs] at herr; cases herr
+  · intro hn
+    by_cases h16 : ip.length = 16
+    · exact (ipv4_setter_refuses_ipv6 H d hk as tag ip secret auth salt h16 (fun h => hn (Or.inr h))).1
+    · exact (ipv4_setter_refuses_other_length H d hk as tag ip secret auth salt (fun h => hn (Or.inl h)) h16).1
+
+/-! ##### IPv6 attribute (`ipv6addr`) -/
+
+/-- 4 octets (an IPv4 address) → ACCEPTED by the IPv6 attribute, stored as the 16-octet v4-mapped
+    address `::ffff:a.b.c.d`; Lookup returns those 16 octets.  The property text says setters refuse
+    the wrong address family; the code (`a.To16()` in `radius.NewIPv6Addr`) does not. -/
+theorem ipv6_setter_accepts_ipv4_as_mapped (d : Desc) (hwf : d.wf) (hk : d.kind = .ipv6addr) (he : d.encrypt = 0)
+    (as : Attrs) (tag : UInt8) (ip secret auth salt : Bytes) (hl : ip.length = 4) :
+    AcceptsAs H d as tag ip secret auth salt (v4InV6Prefix ++ ip) :=
+  acceptsAs_ipv6addr H d hwf hk he as tag ip secret auth salt _ (by unfold to16; rw [if_pos hl])
+    (by simp [v4InV6Prefix, hl])
+
+/-- 16 octets → accepted, stored as given — v4-mapped or not -/
+theorem ipv6_setter_accepts_16 (d : Desc) (hwf : d.wf) (hk : d.kind = .ipv6addr) (he : d.encrypt = 0)
+    (as : Attrs) (tag : UInt8) (ip secret auth salt : Bytes) (hl : ip.length = 16) :
+    AcceptsAs H d as tag ip secret auth salt ip :=
+  acceptsAs_ipv6addr H d hwf hk he as tag ip secret auth salt ip
+    (by unfold to16; rw [if_neg (by omega), if_pos hl]) hl
+
+/-- … in particular the v4-mapped form of an IPv4 address (what `net.ParseIP("a.b.c.d")` returns)
+    is ACCEPTED by the IPv6 attribute -/
+theorem ipv6_setter_accepts_v4mapped (d : Desc) (hwf : d.wf) (hk : d.kind = .ipv6addr) (he : d.encrypt = 0)
+    (as : Attrs) (tag : UInt8) (ip secret auth salt : Bytes) (hm : isV4Mapped ip) :
+    AcceptsAs H d as tag ip secret auth salt ip :=
+  ipv6_setter_accepts_16 H d hwf hk he as tag ip secret auth salt hm.1
+
+/-- any other length (`nil` included) → refused, whatever `encrypt` is -/
+theorem ipv6_setter_refuses_other_length (d : Desc) (hk : d.kind = .ipv6addr)
+    (as : Attrs) (tag : UInt8) (ip secret auth salt : Bytes) (h4 : ip.length ≠ 4) (h16 : ip.length ≠ 16) :
+    Refuses H d as tag ip secret auth salt := by
+  refine refuses_of_encode_err H d (by simp [hk]) as tag ip secret auth salt ?_
+  rw [encode_ipv6addr H d hk]
+  have : to16 ip = none := by
+    unfold to16; rw [if_neg h4, if_neg h16]
+  rw [this]
+
+/-- summary for an unencrypted IPv6 attribute: refused exactly when the value has neither 4 nor 16
+    octets — the address FAMILY of the value plays no role -/
+theorem ipv6_setter_refuses_iff (d : Desc) (hwf : d.wf) (hk : d.kind = .ipv6addr) (he : d.encrypt = 0)
+    (as : Attrs) (tag : UInt8) (ip secret auth salt : Bytes) :
+    hSet H d as tag (.bytes ip) secret auth salt = .err ↔ ¬ (ip.length = 4 ∨ ip.length = 16) := by
+  constructor
+  · intro herr hor
+    rcases hor with h | h
+    · obtain ⟨⟨as', hs, _⟩, _⟩ := ipv6_setter_accepts_ipv4_as_mapped H d hwf hk he as tag ip secret auth salt h
+      rw [hs] at herr; cases herr
+    · obtain ⟨⟨as', hs, _⟩, _⟩ := ipv6_setter_accepts_16 H d hwf hk he as tag ip secret auth salt h
+      rw [hs] at herr; cases herr
+  · intro hn
+    exact (ipv6_setter_refuses_other_length H d hk as tag ip secret auth salt
+      (fun h => hn (Or.inl h)) (fun h => hn (Or.inr h))).1
 
 theorem refuses_oversize (hH : ∀ x, (H x).length = 16) (d : Desc) (hwf : d.wf)
     (hk : d.kind = .string ∨ d.kind = .octets) (he : d.encrypt = 0) (b : Bytes) (tag : UInt8)
@@ -316,6 +680,20 @@ theorem set_lookup_concat (d : Desc) (hwf : d.wf) (hk : d.kind = .concat) (as as
   · rw [if_pos hb, if_pos ((chunks253_eq_nil_iff b).2 hb)]
   · rw [if_neg hb, if_neg (fun e => hb ((chunks253_eq_nil_iff b).1 e))]
 
+/-- … and X_Get / X_GetString return the whole value (nil for the empty value) -/
+theorem set_get_concat (d : Desc) (hwf : d.wf) (hk : d.kind = .concat) (as as' : Attrs)
+    (tag : UInt8) (v : GVal) (secret auth salt : Bytes)
+    (h : hSet H d as tag v secret auth salt = .ok as') :
+    ∃ b, v = .bytes b ∧ hGet H d as' secret auth = (0, .bytes b) ∧ hGetString H d as' secret auth = (0, .bytes b) := by
+  obtain ⟨b, hv, hr, hl⟩ := set_lookup_concat H d hwf hk as as' tag v secret auth salt h
+  have hg : hGet H d as' secret auth = (0, .bytes b) := by
+    by_cases hb : b = []
+    · rw [if_pos hb] at hl
+      rw [hGet_of_lookup_noAttr H d as' secret auth hl, hk, hb]; rfl
+    · rw [if_neg hb] at hl
+      exact hGet_of_lookup_val H d as' secret auth _ _ hl
+  exact ⟨b, hv, hg, by rw [hGetString_eq H d (Or.inr (Or.inr hk)), hg]⟩
+
 /-- the stored chunks are non-empty, at most 253 bytes each, and concatenate to the value -/
 theorem concat_chunks (b : Bytes) :
     (chunks253 b).flatten = b ∧ ∀ c ∈ chunks253 b, 1 ≤ c.length ∧ c.length ≤ 253 :=
@@ -402,6 +780,187 @@ theorem set_lookup_anyNul_counterexample : ¬ set_lookup_anyNul_full := by
   rw [hLookup_of_raw_single zeroHash d hk _ [1] (zeros 16) c [] _ hr hdec] at hl
   revert hl
   decide
+
+/-! ### 11. negative control for `refusal_leaves_unchanged`: the statement order matters -/
+
+/-- `_V_SetVendor` in the statement order it had before the repair (removal loop first, encoding —
+    which can fail — afterwards), mirrored with the same primitives: a Set that is refused (empty
+    value) has already removed the attribute's old value from the packet.  The repaired order on the
+    same input refuses and leaves the list as it was.  So `refusal_leaves_unchanged` is a statement
+    about the order of the template's statements, not a consequence of the modelling style. -/
+theorem old_vendor_set_order_changes_packet_on_refusal :
+    ∃ (d : Desc) (as : Attrs) (tag : UInt8) (v : GVal), d.wf ∧ d.vendorID ≠ 0 ∧
+      (Imp.hSetOldImp zeroHash d tag v [] [] [] as).1 = .err ∧
+      (Imp.hSetOldImp zeroHash d tag v [] [] [] as).2 ≠ as ∧
+      Imp.hSetImp zeroHash d tag v [] [] [] as = (.err, as) :=
+  ⟨⟨26, 9, 1, .octets, false, 0, none⟩, [⟨26, [0, 0, 0, 9, 1, 3, 0xAA]⟩], 0, .bytes [],
+    by decide +kernel, by decide +kernel, by decide +kernel, by decide +kernel, by decide +kernel⟩
+
+/-- the same at the level of `_V_SetVendor` itself -/
+example : Imp.setVendorOldImp 9 1 [] [⟨26, [0, 0, 0, 9, 1, 3, 0xAA]⟩, ⟨1, [0x61]⟩] = (.err, [⟨1, [0x61]⟩]) := by decide +kernel
+example : Imp.setVendorImp 9 1 [] [⟨26, [0, 0, 0, 9, 1, 3, 0xAA]⟩, ⟨1, [0x61]⟩] =
+    (.err, [⟨26, [0, 0, 0, 9, 1, 3, 0xAA]⟩, ⟨1, [0x61]⟩]) := by decide +kernel
+
+/-! ### 12. address families, concretely -/
+
+/-- The IPv4 address 192.0.2.1 (4 octets) handed to an IPv6 attribute (type 168, `ipv6addr`) is
+    ACCEPTED and stored as `::ffff:192.0.2.1`; Lookup then returns that 16-octet address.  The
+    property text ("setters refuse … wrong address family") does not hold of the code in this
+    combination; whether that is a defect of the library or a loose wording of the property is for
+    the reader to decide — the code's behaviour is `net.IP.To16()`. -/
+theorem wrong_family_accepted_witness :
+    hSet zeroHash ⟨168, 0, 0, .ipv6addr, false, 0, none⟩ [] 0 (.bytes [192, 0, 2, 1]) [] [] [] =
+      .ok [⟨168, [0, 0, 0, 0, 0, 0, 0, 0, 0, 0, 0xff, 0xff, 192, 0, 2, 1]⟩] ∧
+    hLookup zeroHash ⟨168, 0, 0, .ipv6addr, false, 0, none⟩
+      [⟨168, [0, 0, 0, 0, 0, 0, 0, 0, 0, 0, 0xff, 0xff, 192, 0, 2, 1]⟩] [] [] =
+      .val 0 (.bytes [0, 0, 0, 0, 0, 0, 0, 0, 0, 0, 0xff, 0xff, 192, 0, 2, 1]) := by
+  constructor <;> decide +kernel
+
+/-- the other direction is refused: 2001:db8::1 handed to an IPv4 attribute (type 8, `ipaddr`) -/
+example : hSet zeroHash ⟨8, 0, 0, .ipaddr, false, 0, none⟩ [⟨8, [10, 0, 0, 1]⟩] 0
+    (.bytes [0x20, 0x01, 0x0d, 0xb8, 0, 0, 0, 0, 0, 0, 0, 0, 0, 0, 0, 1]) [] [] [] = .err := by decide
+/-- … while the v4-mapped form of 192.0.2.1 is accepted by the IPv4 attribute and stored as 4 octets -/
+example : hSet zeroHash ⟨8, 0, 0, .ipaddr, false, 0, none⟩ [] 0
+    (.bytes [0, 0, 0, 0, 0, 0, 0, 0, 0, 0, 0xff, 0xff, 192, 0, 2, 1]) [] [] [] = .ok [⟨8, [192, 0, 2, 1]⟩] := by
+  decide +kernel
+example : isV4Mapped [0, 0, 0, 0, 0, 0, 0, 0, 0, 0, 0xff, 0xff, 192, 0, 2, 1] := by decide
+example : ¬ isV4Mapped [0x20, 0x01, 0x0d, 0xb8, 0, 0, 0, 0, 0, 0, 0, 0, 0, 0, 0, 1] := by decide
+example : Desc.wf ⟨168, 0, 0, .ipv6addr, false, 0, none⟩ ∧ Desc.wf ⟨8, 0, 0, .ipaddr, false, 0, none⟩ ∧
+    Desc.wf ⟨26, 311, 7, .ipaddr, false, 0, none⟩ := by decide
+/-- instance of the table: a vendor IPv6 attribute, an IPv4 value, a packet with other content -/
+example : AcceptsAs zeroHash ⟨26, 311, 7, .ipv6addr, false, 0, none⟩ [⟨1, [0x61]⟩] 0 [192, 0, 2, 1] [] [] []
+    (v4InV6Prefix ++ [192, 0, 2, 1]) :=
+  ipv6_setter_accepts_ipv4_as_mapped zeroHash _ (by decide) rfl rfl _ _ _ _ _ _ (by decide)
+example : Refuses zeroHash ⟨8, 0, 0, .ipaddr, false, 2, none⟩ [⟨8, [10, 0, 0, 1]⟩] 0
+    [0x20, 0x01, 0x0d, 0xb8, 0, 0, 0, 0, 0, 0, 0, 0, 0, 0, 0, 1] [1] (zeros 16) [0x80, 1] :=
+  ipv4_setter_refuses_ipv6 zeroHash _ rfl _ _ _ _ _ _ (by decide) (by decide)
+
+/-! ### 13. named value constants and their `String()` forms equal the VALUE declarations
+
+    RV/Model/ValueConsts.lean models what genAttributeInteger emits from
+    `values := attributeValues(attr, allValues)` (`Gen.attrValues`, the duplicate-number rule):
+    the `const` block, the `X_Strings` map literal and `func (a X) String()`. -/
+
+/-- For an arbitrary VALUE list sorted by number (the generator sorts: `value_constants_any_dictionary`)
+    and an arbitrary attribute:
+    (0) the generator keeps, of the attribute's VALUEs, exactly those not followed by another with
+        the same number ("the last one wins");
+    (1) it emits one constant per kept VALUE, named after the VALUE and equal to its number;
+    (2) the keys of the `X_Strings` literal are pairwise distinct (the literal compiles and a lookup
+        is unambiguous);
+    (3) `String()` of a kept VALUE's number is the dictionary's name of that VALUE;
+    (4) every VALUE declared for the attribute has its number named — by the last declaration with
+        that number;
+    (5) any other number prints as `X(<decimal>)`. -/
+theorem value_constants_equal_dictionary (attrIdent attrName : Bytes) (all : List Dict.Value)
+    (hs : all.Pairwise (fun a b => a.number ≤ b.number)) :
+    (Gen.attrValues attrName all = Gen.lastWins (all.filter (fun v => v.attrName == attrName)) ∧
+      ∀ v, v ∈ Gen.attrValues attrName all ↔
+        ∃ pre post, all.filter (fun v => v.attrName == attrName) = pre ++ v :: post ∧
+          ∀ w ∈ post, v.number < w.number) ∧
+    Gen.valueConsts attrIdent (Gen.attrValues attrName all) =
+      (Gen.attrValues attrName all).map
+        (fun v => (attrIdent ++ Gen.bs "_Value_" ++ Gen.identifier v.name, v.number)) ∧
+    ((Gen.stringsMap (Gen.attrValues attrName all)).map (·.1)).Nodup ∧
+    (∀ v ∈ Gen.attrValues attrName all,
+      v ∈ all ∧ v.attrName = attrName ∧
+      Gen.valueString attrIdent (Gen.attrValues attrName all) v.number = v.name) ∧
+    (∀ v ∈ all, v.attrName = attrName → ∃ v' ∈ Gen.attrValues attrName all, v'.number = v.number ∧
+      Gen.valueString attrIdent (Gen.attrValues attrName all) v.number = v'.name) ∧
+    (∀ n, (∀ v ∈ all, v.attrName = attrName → v.number ≠ n) →
+      Gen.valueString attrIdent (Gen.attrValues attrName all) n =
+        attrIdent ++ Gen.bs "(" ++ Gen.formatUint n ++ Gen.bs ")") := by
+  have hmine : (all.filter (fun v => v.attrName == attrName)).Pairwise (fun a b => a.number ≤ b.number) :=
+    List.Pairwise.sublist List.filter_sublist hs
+  have heq := Gen.attrValues_eq_lastWins attrName all
+  have hstrict := Gen.lastWins_strict _ hmine
+  have hnodup : ((Gen.stringsMap (Gen.attrValues attrName all)).map (·.1)).Nodup := by
+    rw [heq]
+    unfold Gen.stringsMap
+    rw [List.map_map]
+    have : (List.map ((fun x => x.1) ∘ fun v : Dict.Value => (v.number, v.name))
+        (Gen.lastWins (all.filter (fun v => v.attrName == attrName)))).Pairwise (fun a b => a < b) := by
+      rw [List.pairwise_map]; exact hstrict
+    exact List.Pairwise.imp (fun h => Nat.ne_of_lt h) this
+  have hstr : ∀ v ∈ Gen.attrValues attrName all,
+      Gen.valueString attrIdent (Gen.attrValues attrName all) v.number = v.name := by
+    intro v hv
+    unfold Gen.valueString
+    rw [Gen.mapLookup_of_mem _ hnodup v.number v.name
+      (by unfold Gen.stringsMap; exact List.mem_map.2 ⟨v, hv, rfl⟩)]
+  refine ⟨⟨heq, fun v => ?_⟩, rfl, hnodup, fun v hv => ⟨?_, ?_, hstr v hv⟩, fun v hv ha => ?_, fun n hn => ?_⟩
+  · rw [heq]; exact Gen.lastWins_mem_iff _ hmine v
+  · rw [heq] at hv
+    exact (List.mem_filter.1 (Gen.lastWins_mem _ _ hv)).1
+  · rw [heq] at hv
+    exact beq_iff_eq.1 (List.mem_filter.1 (Gen.lastWins_mem _ _ hv)).2
+  · have hvm : v ∈ all.filter (fun v => v.attrName == attrName) :=
+      List.mem_filter.2 ⟨hv, beq_iff_eq.2 ha⟩
+    obtain ⟨v', hv', hn⟩ := Gen.lastWins_covers _ v hvm
+    rw [← heq] at hv'
+    exact ⟨v', hv', hn, by rw [← hn]; exact hstr v' hv'⟩
+  · unfold Gen.valueString
+    rw [Gen.mapLookup_none]
+    intro e he
+    unfold Gen.stringsMap at he
+    obtain ⟨v, hv, rfl⟩ := List.mem_map.1 he
+    rw [heq] at hv
+    have hvm := List.mem_filter.1 (Gen.lastWins_mem _ _ hv)
+    exact hn v hvm.1 (beq_iff_eq.1 hvm.2)
+
+/-- the same for the list the generator actually passes — any VALUE list at all, stably sorted by
+    number (`sortValues`): no hypothesis left -/
+theorem value_constants_any_dictionary (attrIdent attrName : Bytes) (vs : List Dict.Value) :
+    ((Gen.stringsMap (Gen.attrValues attrName (Gen.sortValues vs))).map (·.1)).Nodup ∧
+    (∀ v ∈ Gen.attrValues attrName (Gen.sortValues vs),
+      v ∈ vs ∧ v.attrName = attrName ∧
+      Gen.valueString attrIdent (Gen.attrValues attrName (Gen.sortValues vs)) v.number = v.name) ∧
+    (∀ v ∈ vs, v.attrName = attrName → ∃ v' ∈ Gen.attrValues attrName (Gen.sortValues vs),
+      v'.number = v.number ∧ v' ∈ vs ∧ v'.attrName = attrName ∧
+      Gen.valueString attrIdent (Gen.attrValues attrName (Gen.sortValues vs)) v.number = v'.name) ∧
+    (∀ n, (∀ v ∈ vs, v.attrName = attrName → v.number ≠ n) →
+      Gen.valueString attrIdent (Gen.attrValues attrName (Gen.sortValues vs)) n =
+        attrIdent ++ Gen.bs "(" ++ Gen.formatUint n ++ Gen.bs ")") := by
+  obtain ⟨_, _, h2, h3, h4, h5⟩ :=
+    value_constants_equal_dictionary attrIdent attrName (Gen.sortValues vs) (Gen.sortValues_sorted vs)
+  have hm : ∀ v, v ∈ Gen.sortValues vs ↔ v ∈ vs := fun v => Gen.mem_sortStable _ vs v
+  refine ⟨h2, fun v hv => ?_, fun v hv ha => ?_, fun n hn => ?_⟩
+  · obtain ⟨a, b, c⟩ := h3 v hv
+    exact ⟨(hm v).1 a, b, c⟩
+  · obtain ⟨v', hv', hn, hs⟩ := h4 v ((hm v).2 hv) ha
+    obtain ⟨a, b, _⟩ := h3 v' hv'
+    exact ⟨v', hv', hn, (hm v').1 a, b, hs⟩
+  · exact h5 n (fun v hv => hn v ((hm v).1 hv))
+
+/-- Service-Type-like example: two names for number 1 (the later declaration wins), declarations
+    out of order, a VALUE of another attribute in between -/
+example :
+    let vs : List Dict.Value := [⟨Gen.bs "A", Gen.bs "Login", 1⟩, ⟨Gen.bs "A", Gen.bs "Zero", 0⟩,
+      ⟨Gen.bs "B", Gen.bs "Other", 1⟩, ⟨Gen.bs "A", Gen.bs "Login-User", 1⟩]
+    let values := Gen.attrValues (Gen.bs "A") (Gen.sortValues vs)
+    Gen.valueConsts (Gen.bs "A") values = [(Gen.bs "A_Value_Zero", 0), (Gen.bs "A_Value_LoginUser", 1)] ∧
+    Gen.valueString (Gen.bs "A") values 1 = Gen.bs "Login-User" ∧
+    Gen.valueString (Gen.bs "A") values 0 = Gen.bs "Zero" ∧
+    Gen.valueString (Gen.bs "A") values 27 = Gen.bs "A(27)" := by decide +kernel
+
+/-! ### 14. X_Get on the error paths of X_Lookup, concretely -/
+
+/-- an `octets[2]` attribute whose stored value has 3 octets: X_Lookup reports an error, X_Get (which
+    drops the error) hands out the 3 octets — the template assigns `value` before the size check -/
+example : hLookup zeroHash ⟨5, 0, 0, .octets, false, 0, some 2⟩ [⟨5, [1, 2, 3]⟩] [] [] = .err ∧
+    hGet zeroHash ⟨5, 0, 0, .octets, false, 0, some 2⟩ [⟨5, [1, 2, 3]⟩] [] [] = (0, .bytes [1, 2, 3]) := by decide
+/-- a tagged integer with a 3-octet value: error, X_Get returns the stripped tag and 0 -/
+example : hLookup zeroHash ⟨64, 0, 0, .integer, true, 0, none⟩ [⟨64, [5, 0, 7]⟩] [] [] = .err ∧
+    hGet zeroHash ⟨64, 0, 0, .integer, true, 0, none⟩ [⟨64, [5, 0, 7]⟩] [] [] = (5, .nat 0) := by decide
+/-- absent attribute: zero values -/
+example : hGet zeroHash ⟨55, 0, 0, .date, false, 0, none⟩ [] [] [] = (0, .time zeroTimeUnix) ∧
+    hGet zeroHash ⟨97, 0, 0, .ipv6prefix, false, 0, none⟩ [] [] [] = (0, .pfx none) ∧
+    hGetString zeroHash ⟨1, 0, 0, .string, false, 0, none⟩ [] [] [] = (0, .bytes []) := by decide
+/-- Set then Get / GetString on a tagged text attribute (instance of `set_get`, `set_getString`) -/
+example : ∃ as', hSet zeroHash ⟨64, 0, 0, .string, true, 0, none⟩ [⟨64, [9]⟩] 3 (.bytes [0x61]) [] [] [] = .ok as' ∧
+    hGet zeroHash ⟨64, 0, 0, .string, true, 0, none⟩ as' [] [] = (3, .bytes [0x61]) ∧
+    hGetString zeroHash ⟨64, 0, 0, .string, true, 0, none⟩ as' [] [] = (3, .bytes [0x61]) :=
+  ⟨[⟨64, [3, 0x61]⟩], by decide +kernel, by decide, by decide⟩
 
 /-! ### Non-vacuity (tests): the hypotheses are satisfiable -/
 
